@@ -8,7 +8,7 @@
    restated for every crash / fault prefix. *)
 From Coq Require Import ZArith NArith Bool List.
 From Mysync Require Import Gtid.Interval Gtid.GtidSet Pure.Quorum Base.Prog Base.ProgFacts Base.Hoare Base.Config
-  Procs.NodeOps Procs.Lost Procs.ActiveNodes Procs.Switchover Procs.Manager Proofs.LostProofs Proofs.SwitchoverProofs Proofs.ManagerProofs.
+  Procs.NodeOps Procs.Lost Procs.ActiveNodes Procs.Switchover Procs.Manager Proofs.LostProofs Proofs.SwitchoverProofs Proofs.ManagerProofs Proofs.WritableProofs.
 Import ListNotations.
 Open Scope Z_scope.
 
@@ -37,3 +37,12 @@ Proof.
   destruct (failure_detection_files _ _ _ _ _ _ _ _ _ H e Hin Hf) as (_ & _ & _ & m1 & tra & R & I & _). exists m1, tra. auto.
 Qed.
 Print Assumptions C02_failover_only_when_approved.
+
+(* one writable master, from the side of what mysync does outside a switchover: in the repair tail of a manager
+   iteration (offline-mode repair, topology repair with the disk guard, crash-recovery request, active-list update,
+   optimisation sync) every SET read_only=0 goes to the recorded master - for every response of every call *)
+Theorem C02_repair_tail_makes_only_the_recorded_master_writable : forall cfg env m c tr o,
+  runs (manager_tail cfg env m c) tr o ->
+  forall e h, In e tr -> ev_call e = Sql h SSetWritable -> h = tc_master c.
+Proof. exact tail_writable_is_recorded_master. Qed.
+Print Assumptions C02_repair_tail_makes_only_the_recorded_master_writable.
